@@ -257,10 +257,17 @@ namespace hgraph::detail
                 return false;
             }
 
+            // The added / removed slot masks are cleared lazily, on the previous
+            // target's NEXT tick: they describe the transition cycle only when the
+            // previous target itself ticked in it. A removal it published in an
+            // earlier cycle was already delivered and must not be replayed.
+            const bool ticked_in_transition = previous.modified(link->structural_transition_time());
             const bool added_in_transition =
-                previous.modified(link->structural_transition_time()) &&
-                state->slot_access->slot_added(previous, slot);
-            return state->slot_access->slot_published(previous, slot) && !added_in_transition;
+                ticked_in_transition && state->slot_access->slot_added(previous, slot);
+            const bool removed_earlier =
+                !ticked_in_transition && state->slot_access->slot_removed(previous, slot);
+            return state->slot_access->slot_published(previous, slot) && !added_in_transition &&
+                   !removed_earlier;
         }
 
         [[nodiscard]] bool target_link_previous_contains_published(const void *context,
